@@ -183,7 +183,72 @@ def g_data_pack(r):
     return dict(self=f, pkt=p, fragments=mk_fragments(r), k=mk_kw(r))
 
 
+def g_deferred_expr(r):
+    """a random expression tree over two integer fields and a bytes field, built twice from the same
+    recipe: over Field objects (deferred) and over the packet's values (eager python)"""
+    import operator
+    from bisturi.field import Int, Data
+    x, y, d = Int(1), Int(2), Data(2)
+    x.field_name, y.field_name, d.field_name = 'x', 'y', 'd'
+    p = Obj()
+    p.x, p.y, p.d = r.choice([0, 1, 2, 3, 7, 255]), r.choice([0, 1, 2, 5, 300]), bytes(r.randrange(256) for _ in range(r.randrange(0, 4)))
+    binops = [operator.add, operator.sub, operator.mul, operator.floordiv, operator.mod, operator.pow, operator.le, operator.lt,
+              operator.ge, operator.gt, operator.eq, operator.ne, operator.and_, operator.or_, operator.xor, operator.rshift,
+              operator.lshift, operator.truediv]
+
+    def recipe(depth):
+        k = r.randrange(0, 9 if depth > 0 else 3)
+        if k == 0:
+            return lambda X, Y, D: X
+        if k == 1:
+            return lambda X, Y, D: Y
+        if k == 2:
+            c = r.choice([0, 1, 2, 3, 8, -1])
+            return lambda X, Y, D: c
+        if k in (3, 4, 5):
+            op = r.choice(binops)
+            a, b = recipe(depth - 1), recipe(depth - 1)
+            return lambda X, Y, D: op(a(X, Y, D), b(X, Y, D))
+        if k == 6:
+            a = recipe(depth - 1)
+            u = r.choice([operator.neg, operator.inv])
+            return lambda X, Y, D: u(a(X, Y, D))
+        if k == 7:
+            a = recipe(depth - 1)
+            return lambda X, Y, D: D[a(X, Y, D)]
+        # the selector's condition is rooted in a field, so the selection itself is deferred
+        fld = r.randrange(2)
+        cmpc = r.choice([0, 1, 2, 3])
+        a = (lambda X, Y, D: (X if fld == 0 else Y) > cmpc)
+        b, c = recipe(depth - 1), recipe(depth - 1)
+        form = r.randrange(3)
+
+        def sel(X, Y, D):
+            cond, t, f = a(X, Y, D), b(X, Y, D), c(X, Y, D)
+            from bisturi.field import Field
+            from bisturi.deferred import UnaryExpr, BinaryExpr, NaryExpr
+            if isinstance(cond, (Field, UnaryExpr, BinaryExpr, NaryExpr)):
+                if form == 0:
+                    return cond.if_true_then_else([t, f])
+                if form == 1:
+                    return cond.if_true_then_else(t, f)
+                return cond.chooses({True: t, False: f})
+            return t if bool(cond) else f
+        return sel
+    rec = recipe(3)
+    try:
+        expr = rec(x, y, d)
+    except Exception:
+        raise
+    try:
+        expected = ('ok', rec(p.x, p.y, p.d))
+    except Exception as e:
+        expected = ('raise', type(e).__name__)
+    return dict(root_expr=expr, ghost_pkt=p, ghost_expected=expected)
+
+
 GENERATORS = {
+    'deferred:compile_expr_into_callable': g_deferred_expr,
     'field:Data._unpack_fixed_size': g_data_unpack('fixed'),
     'field:Data._unpack_variable_size_field': g_data_unpack('field'),
     'field:Data._unpack_variable_size_callable': g_data_unpack('callable'),
